@@ -247,6 +247,8 @@ package kmipserver
 //@ ghostvar termAtHandled int
 //@ ghostvar newConns int
 //@ ghostvar newConnCtx context.Context
+// an absolute deadline armed on the connection and not cleared ends it whatever the client does
+//@ ghostvar deadlineArmed bool
 //@ ghostvar closeCalls int
 //@ ghostvar wgDone int
 //@ ghostvar okRecvs int
@@ -327,7 +329,7 @@ package kmipserver
 //@   ghost errReply = r0
 
 //@ func (*Server).handleConn
-//@   requires srv != nil && srv.wg != nil && srv.logger != nil && conn != nil && srv.recvCtx != nil
+//@   requires srv != nil && srv.wg != nil && srv.logger != nil && conn != nil && srv.recvCtx != nil && !deadlineArmed
 //@   ensures wgDone == old(wgDone)+1
 //@   ensures newConns == old(newConns) || (newConns == old(newConns)+1 && closeCalls == old(closeCalls)+1)
 //@   ensures newConns == old(newConns) ==> connectCalls == old(connectCalls) && termCalls == old(termCalls) && sends == old(sends) && handled == old(handled)
@@ -339,7 +341,7 @@ package kmipserver
 //@   ensures errReplies == old(errReplies) || (errReplies == old(errReplies)+1 && lastRecvEnc && lastSent == errReply)
 //@   ensures connectCalls != old(connectCalls) && hookOK && lastRecvFailed && lastRecvEnc && !lastRecvEOF ==> errReplies == old(errReplies)+1 && lastSent == errReply
 //@   loop 0 invariant sends-old(sends) == okRecvs-old(okRecvs) && handled-old(handled) == okRecvs-old(okRecvs) && errReplies == old(errReplies)
-//@   loop 0 invariant termCalls == old(termCalls) && connectCalls == old(connectCalls)+1 && hookOK && newConns == old(newConns)+1 && closeCalls == old(closeCalls) && wgDone == old(wgDone) && newConnCtx == old(srv.ctx)
+//@   loop 0 invariant termCalls == old(termCalls) && connectCalls == old(connectCalls)+1 && hookOK && newConns == old(newConns)+1 && closeCalls == old(closeCalls) && wgDone == old(wgDone) && newConnCtx == old(srv.ctx) && !deadlineArmed
 //@   loop 0 ghostmod okRecvs, lastRecvEnc, lastRecvFailed, lastRecvEOF, sends, lastSent, handled, errReplies, errReply
 
 //@ func handleMessageError
